@@ -8,6 +8,10 @@ sys.path.insert(0, os.path.dirname(os.path.abspath(__file__)))
 import check as C
 repo = os.environ.get("VERIF_REPO", "/repo")
 cfgs = [json.load(open(f)) for f in sorted(glob.glob(os.path.join(C.VERIF, "props", "C*.json")))]
+_rp = os.path.join(C.VERIF, "props", "ready.txt")
+if os.path.exists(_rp):
+    _ready = set(open(_rp).read().split())
+    cfgs = [c for c in cfgs if c["id"] in _ready]
 bad = []
 for cfg in cfgs:
     for (t, rc, out) in C.run_translators(cfg, repo):
